@@ -537,9 +537,15 @@ class ExprLambda(Expr):
         if length:
             yield " "
         for index, parameter in enumerate(self.parameters, 1):
+            # The `/` marker closes the positional-only parameters, before anything else is emitted.
+            if parameter.kind is not ParameterKind.positional_only and pos_only:
+                pos_only = False
+                yield "/, "
             if parameter.kind is ParameterKind.positional_only:
                 pos_only = True
             elif parameter.kind is ParameterKind.var_positional:
+                # `*args` already separates keyword-only parameters: no bare `*` marker after it.
+                kw_only = True
                 yield "*"
             elif parameter.kind is ParameterKind.var_keyword:
                 yield "**"
@@ -548,15 +554,15 @@ class ExprLambda(Expr):
             elif parameter.kind is ParameterKind.keyword_only and not kw_only:
                 kw_only = True
                 yield "*, "
-            if parameter.kind is not ParameterKind.positional_only and pos_only:
-                pos_only = False
-                yield "/, "
             yield parameter.name
             if parameter.default and parameter.kind not in (ParameterKind.var_positional, ParameterKind.var_keyword):
                 yield "="
                 yield from _yield(parameter.default, flat=flat)
             if index < length:
                 yield ", "
+        if pos_only:
+            # All parameters are positional-only.
+            yield ", /"
         yield ": "
         yield from _yield(self.body, flat=flat)
 
